@@ -155,7 +155,11 @@ func spaces(thorough bool) (a3, a4, b *space) {
 
 // produce enumerates every case of the tier.
 func produce(thorough bool, emit func(*Case)) (trees int64) {
+	only := os.Getenv("VERIF_C07_ONLY") // development aid: restrict the run to some spaces (the run is then not exhaustive)
 	fan := func(spaceName string, idx int64, t Tree, deep bool) {
+		if only != "" && !strings.Contains(only, spaceName[:1]) {
+			return
+		}
 		trees++
 		for _, b := range backendNames {
 			for _, l := range limitNames {
@@ -280,7 +284,7 @@ func TestC07(t *testing.T) {
 	rep.Coverage["cases_per_space"] = st.perSpace
 	rep.Coverage["distinct_nontrivial"] = st.nontrivial
 	rep.Coverage["rule"] = "a case (tree × backend × limits) counts when its tree has at least one entry, the repository's Zip produced an archive of it, and both filesystem views were opened over the archives — i.e. the header-writing walk, the extraction loop and the read-only wrappers were all exercised; the tree without entries does not count"
-	rep.Coverage["exhaustive"] = true
+	rep.Coverage["exhaustive"] = os.Getenv("VERIF_C07_ONLY") == ""
 	rep.Coverage["bound"] = boundText(thorough)
 	rep.Coverage["max_entries_in_a_tree"] = st.maxEntries
 	rep.Coverage["distinct_case_outcomes"] = len(st.outcomes)
